@@ -135,6 +135,18 @@ claim("C20", "proof",
       TB + " Partial: determinism has no proof content in a functional model; EINTR/stdout failures not modelled.",
       "Coq proof over an I/O plan model with a fault oracle + fault enumeration through an LD_PRELOAD shim")
 
+claim("C10", "proof",
+      "Theorems (Properties_C10.v) about the guard every access goes through (SBEPP_SIZE_CHECK as modelled in "
+      "Cursor.size_check): a passed check implies begin <= end and the accessed bytes lie inside [begin,end), wherever the "
+      "view starts; accessed bytes inside the buffer never fail the check; cursor accessors at the required position "
+      "report nothing; the macro before the fix is refuted (views starting past the end passed every check). That each "
+      "library operation passes its true accessed extent to the guard is decided by correspondence: every accessor kind "
+      "on images truncated around every header/dimension/length/field boundary and at sampled lengths, the view ending on "
+      "a PROT_NONE page: never a fault, returned values equal the complete-image values, model-out-of-bounds => handler, "
+      "complete image => no handler; plus a hostile <data> length steering the next view past the end.",
+      TB + " Partial: per-operation extents are tied by the sweep, not proved; container mutators are covered by C13/C14.",
+      "Coq proof about the size-check guard + fault enumeration (truncation sweep under guard pages)")
+
 NOT_YET = {}
 ALL = ["C%02d" % i for i in range(1, 21)]
 
